@@ -525,6 +525,16 @@ func (g *G) genInst(c *cur) {
 		if g.chance("allocasv", 1, 8) && !g.off("scalable-vector") {
 			t = g.vecType(true)
 		}
+		if g.chance("swifterror", 1, 12) && !g.off("alloca-swifterror") {
+			// a swifterror slot may only be loaded from and stored to: it gets one store and is not
+			// offered to later instructions
+			sw := &am.Inst{Op: "alloca", ElemT: am.P(am.I8), T: am.P(am.P(am.I8)), SwiftError: true, Name: g.localName("swerr")}
+			c.blk.Insts = append(c.blk.Insts, sw)
+			c.blk.Insts = append(c.blk.Insts, &am.Inst{Op: "store", T: am.TVoid, Args: []*am.Value{{K: am.VConst, C: &am.Const{K: am.CNull, T: am.P(am.I8)}}, {K: am.VInst, I: sw}}})
+			g.feat("inst/alloca")
+			g.feat("alloca/swifterror")
+			return
+		}
 		in := &am.Inst{Op: "alloca", ElemT: t}
 		if g.chance("allocaalign", 1, 2) {
 			in.Align = 1 << uint(g.intn("alignlog", 7))
@@ -607,6 +617,9 @@ func (g *G) genInst(c *cur) {
 			if g.chance("cxalign", 1, 3) && !g.off("atomic-align") {
 				in.Align = g.atomicAlign(et) << uint(g.intn("cxalignup", 3))
 			}
+			if g.chance("ss", 1, 3) {
+				in.SyncScope = g.pick("ssn", []string{"singlethread", "agent", "my scope"})
+			}
 			c.add(in)
 		} else {
 			in := &am.Inst{Op: "atomicrmw", T: et, Args: []*am.Value{p, c.val(et)}, Volatile: g.chance("vol", 1, 4)}
@@ -614,6 +627,9 @@ func (g *G) genInst(c *cur) {
 			in.Ordering = g.pick("rmwo", []string{"monotonic", "acquire", "release", "acq_rel", "seq_cst"})
 			if g.chance("rmwalign", 1, 3) && !g.off("atomic-align") {
 				in.Align = g.atomicAlign(et) << uint(g.intn("rmwalignup", 3))
+			}
+			if g.chance("ss", 1, 3) {
+				in.SyncScope = g.pick("ssn", []string{"singlethread", "agent", "my scope"})
 			}
 			c.add(in)
 		}
